@@ -38,6 +38,13 @@ Slack, with its derivation (correct code can never trip it; a wrong formula miss
   1.1 n dm^2, dm = 1.01 (n+1) u A_y/n (as in C18); r2 and std_err^2 = SSE/(n-2) inherit these through one
   subtraction and one division.  No verdict for r2 when SST <= 4 tol_SST (response constant to working precision).
 * predict: |pred - sum c^_k q^k| <= 2 * 1.01 (p+10) u sum |c^_k||q|^k.
+* range of validity of all of the above: the standard model fl(a op b) = (a op b)(1 + d), |d| <= u, i.e. no
+  underflow or overflow in any intermediate quantity.  With ex, ey the largest |binary exponent| among the non-zero
+  abscissae / responses, the intermediate quantities of a fit with p coefficients are (products of) x^k (k <= 2p-2),
+  y x^k, y / x^k and y^2, and the smallest tolerance terms are of size (u y)^2: the numeric clauses are judged only when
+  (2p-2) ex + ey + 100 <= 1000 and 2 ey + 120 <= 1000 (`safe_range`); beyond that the correspondence alone compares
+  (the hardening families reach 10^+-140 in x and 2^+-200 in y; everything up to 10^+-100 in x is judged for the line fit).
+  A prediction is judged when every non-zero term |c_k q^k| and q^k lies in [2^-900, 2^900].
 """
 import struct, math
 from fractions import Fraction
@@ -51,7 +58,11 @@ SLACK = F(1)  # multiplies every rounding allowance; 1 in production (scratch ex
 RULE = ("data sets of 3..60 points in eight abscissa shapes (integer grid, uniform, clustered [5,6], shifted 1000..1002, "
         "negative, repeated, one-sided grid, dyadic), responses = polynomial of degree 0..3 + noise 0..10, every polynomial "
         "order 0..6 whose moment matrix has cond <= 1e10 and fewer coefficients than distinct abscissae, GD steps "
-        "10..1e5 with alpha = theta*2/lambda_max; plus correspondence-only requests outside the quantifier (0..2 points, "
+        "10..1e5 with alpha = theta*2/lambda_max; hardening families: abscissae c + w t with half-widths w = 1e-17..1e-1 "
+        "(and 1e-140..1e140) around 0 and 1e-9..1e-1 around 1, -1, 1000, 1e-3 and a few widths from 0, n = 3, 4, 7, 20, responses "
+        "at scale 1 and 2^+-20..2^+-200 or with offsets up to 1e12 (all three regressors, line-vs-order-1, nestedness); every "
+        "length 3..70 and lengths around 96, 128, 256 (512, 1024 thorough); exact lines / zero slope / zero responses / "
+        "signed zeros with 0..3 gradient steps; plus correspondence-only requests outside the quantifier (0..2 points, "
         "mismatched lengths, singular systems); non-trivial = the model returned coefficients; distinct = distinct request lines")
 
 
@@ -153,6 +164,12 @@ class Data:
         self.n = len(x)
         self.distinct = len(set(self.x))
         self._pw = {}
+        self.ex = max((abs(math.frexp(v)[1]) for v in x if v != 0.0), default=0)
+        self.ey = max((abs(math.frexp(v)[1]) for v in y if v != 0.0), default=0)
+
+    def safe_range(self, p):
+        """no intermediate quantity of a fit with p coefficients under- or overflows (see the module docstring)"""
+        return (2 * max(p, 2) - 2) * self.ex + self.ey + 100 <= 1000 and 2 * self.ey + 120 <= 1000
 
     def pw(self, k):
         if k not in self._pw:
@@ -349,8 +366,12 @@ def check_predict(c, qs, preds):
     g1 = SLACK * 2 * F(101, 100) * (p + 10) * U
     for q, got in zip(qs, preds):
         qf = F(q)
-        want = sum((ck * qf ** k for k, ck in enumerate(cf)), F(0))
-        mag = sum((abs(ck * qf ** k) for k, ck in enumerate(cf)), F(0))
+        terms = [ck * qf ** k for k, ck in enumerate(cf)]
+        lo, hi = F(1, 2 ** 900), F(2 ** 900)
+        if any(v != 0 and not (lo <= abs(v) <= hi) for v in terms + [qf ** k for k in range(p)]):
+            continue  # under-/overflow range: not judged
+        want = sum(terms, F(0))
+        mag = sum((abs(v) for v in terms), F(0))
         if got is None:
             return f"predict({q!r}) is NaN/inf"
         if abs(F(got) - want) > g1 * mag + TINY:
@@ -460,6 +481,8 @@ def _oracle(cmd, t, o):
         D = Data(x, y)
         fit = parse_fit(o)
         p = {"fit_ls": 2, "fit_gd": 2}.get(cmd, (order or 0) + 1)
+        if not D.safe_range(p):
+            return None  # under-/overflow range: correspondence only
         if fit["kind"] != "coef":
             M = D.moment(p)
             Minv = inverse_exact(M)
@@ -473,7 +496,10 @@ def _oracle(cmd, t, o):
         elif cmd == "fit_ls":
             f = check_ls_coefs(D, c)
         else:
-            f = check_gd(D, steps, alpha, c)
+            try:
+                f = check_gd(D, steps, alpha, c)
+            except (OverflowError, ZeroDivisionError):
+                f = None  # a quantity of the bound itself is outside the binary64 range: not judged
         if f:
             return f
         return check_stats(D, fit) or check_predict(c, qs, fit["pred"])
@@ -488,6 +514,9 @@ def _oracle(cmd, t, o):
         prev = None
         for m in range(top + 1):
             kind, c, pos = parse_coefs(o, pos)
+            if not D.safe_range(m + 1):
+                prev = None
+                continue
             if kind != "coef":
                 M = D.moment(m + 1)
                 Minv = inverse_exact(M)
@@ -509,6 +538,8 @@ def _oracle(cmd, t, o):
         if len(x) != len(y) or len(x) < 3 or not finite_data(x, y):
             return None
         D = Data(x, y)
+        if not D.safe_range(2):
+            return None
         k1, c1, pos = parse_coefs(o, 0)
         k2, c2, pos = parse_coefs(o, pos)
         M = D.moment(2)
